@@ -45,7 +45,19 @@ fn check_bytes(page: &Page, b: &[u8]) -> Check {
     if got != want {
         return Err(Fail::new(
             format!("{P} oracle-decode cp={} bytes={}", page.id, hex(&b[..b.len().min(4)])),
-            format!("decode({}) = {:?} but {} gives {:?}", hex(b), got, page.label.unwrap_or("US-ASCII"), want),
+            if b.len() <= 40 {
+                format!("decode({}) = {:?} but {} gives {:?}", hex(b), got, page.label.unwrap_or("US-ASCII"), want)
+            } else {
+                let at = got.chars().zip(want.chars()).position(|(x, y)| x != y).unwrap_or(got.chars().count().min(want.chars().count()));
+                format!(
+                    "decode of {} bytes starting {}... differs from {} at character {at}: {:?} vs {:?}",
+                    b.len(),
+                    hex(&b[..16]),
+                    page.label.unwrap_or("US-ASCII"),
+                    got.chars().skip(at.saturating_sub(2)).take(6).collect::<String>(),
+                    want.chars().skip(at.saturating_sub(2)).take(6).collect::<String>()
+                )
+            },
         ));
     }
     Ok(())
@@ -138,10 +150,32 @@ fn boundary_strings() -> impl Strategy<Value = StrCase> {
         })
 }
 
+/// Long strings made almost entirely of multi-byte characters, among them
+/// ones whose second byte lies in the ASCII range in the double-byte pages
+/// (0x5C, 0x40..0x7E): 4 to 13 KiB, so that a reader or writer that works in
+/// blocks of 1, 4 or 8 KiB has character boundaries falling everywhere.
+fn dense_strings() -> impl Strategy<Value = StrCase> {
+    let chars = prop::sample::select(vec!['ソ', '表', '能', '十', '功', '許', '丂', '亐', '갂', '걁', '日', '語', '中', 'é', 'Ж', 'ก', '€', '😀', 'a', '\\']);
+    (any::<prop::sample::Index>(), prop::collection::vec(chars, 1..4), 0usize..4, prop_oneof![Just(1_000usize), Just(2_040), Just(4_090), Just(8_185), Just(12_280)], 0usize..24)
+        .prop_map(|(pi, pattern, prefix, base, extra)| {
+            let page = &PAGES[pi.index(PAGES.len())];
+            let mut s: String = "x".repeat(prefix);
+            let target = base + extra;
+            let unit: String = pattern.iter().collect();
+            let unit_len = page.encode(&unit).len().max(1);
+            let mut n = prefix;
+            while n < target {
+                s.push_str(&unit);
+                n += unit_len;
+            }
+            StrCase { cp: page.id, s }
+        })
+}
+
 pub fn run(ctx: &Ctx) -> Report {
     let mut rep = Report::new(
         "exploration",
-        "every Unicode scalar value x every one of the 26 pages (encode, decode back, compare with the encoding_rs encoding chosen by WHATWG label from the page's documented name); every 1- and 2-byte sequence x 26 pages (decode); every identifier in -70,000..=70,000 plus generated 32-bit ones; generated strings whose encoded length sweeps the 1024-byte buffer boundary with multi-byte and unmappable characters at the boundary. Non-trivial = a (page, scalar) pair that is representable in the page, a (page, byte sequence) with a non-ASCII byte, a boundary string longer than 1024 encoded bytes; distinct by the pair itself.",
+        "every Unicode scalar value x every one of the 26 pages (encode, decode back, compare with the encoding_rs encoding chosen by WHATWG label from the page's documented name); every 1- and 2-byte sequence x 26 pages (decode); every identifier in -70,000..=70,000 plus generated 32-bit ones; generated strings whose encoded length sweeps the 1024-byte buffer boundary with multi-byte and unmappable characters at the boundary; dense multi-byte strings of 1..13 KiB (encode, and decode of the result, against the oracle). Non-trivial = a (page, scalar) pair that is representable in the page, a (page, byte sequence) with a non-ASCII byte, a boundary string longer than 1024 encoded bytes; distinct by the pair itself.",
     );
     rep.assumptions.push("encoding_rs mapping tables are trusted; their assignment to code pages is not (WHATWG label lookup from the documented name)".into());
     rep.assumptions.push("ISO 8859-1 (28591) is judged by the WHATWG reading: iso-8859-1 is a label of windows-1252".into());
@@ -264,6 +298,14 @@ pub fn run(ctx: &Ctx) -> Report {
         check_string(page, &case.s)
     }, &mut st);
     rep.push(v);
+    let v = search(ctx, "dense", ctx.tier.pick(6_000, 100_000), dense_strings, |case: &StrCase, st| {
+        st.eval();
+        let page = crate::cpref::page_by_id(case.cp).unwrap();
+        st.nontrivial(&(case.cp, case.s.as_str()));
+        st.class("string:dense-long");
+        check_string(page, &case.s)
+    }, &mut st);
+    rep.push(v);
     // random byte strings for the decoder
     let v = search(ctx, "bytes", ctx.tier.pick(20_000, 1_000_000),
         || (any::<prop::sample::Index>(), prop::collection::vec(any::<u8>(), 0..40)).prop_map(|(pi, b)| (PAGES[pi.index(PAGES.len())].id, b)),
@@ -300,7 +342,7 @@ pub fn replay(_ctx: &Ctx, doc: &J) -> Check {
             let b: Vec<u8> = case[1].as_array().map(|a| a.iter().map(|x| x.as_u64().unwrap_or(0) as u8).collect()).unwrap_or_default();
             check_bytes(page, &b)
         }
-        "string" => {
+        "string" | "dense" => {
             let sc: StrCase = serde_json::from_value(case.clone()).map_err(|e| Fail::new(format!("{P} bad-replay"), e.to_string()))?;
             check_string(page_of(&json!(sc.cp))?, &sc.s)
         }
